@@ -375,7 +375,8 @@ def rejection_guards(prog, an, rep):
               'exists is rejected', u.where(), 'the released-stabilization '
               'rejection changed (tests found: tag %d, hotfix %d)' % (
                   len(t1), len(t2)))
-    pat = [v_ for _, v_ in stores_to(u, 'pattern') if v_ is not None]
+    pat = [substitute_locals(u, x.args[0]) for x in prog.calls_in(u)
+           if dotted(x.func) == 're.match' and x.args]
     from ..regexlang import Lang
     got = Lang.from_regex(const_value(pat[0])) if pat else None
     want = Lang.from_regex(r'^v?\d+\.\d+\.\d+(\.\d+)?$')
